@@ -12,9 +12,11 @@ BACKENDS = {
 }
 
 
-def gen_pa(rng: random.Random, var: str, d: int) -> Tuple[str, Any]:
+def gen_pa(rng: random.Random, var: str, d: int, funs: bool = False) -> Tuple[str, Any]:
+    """Element-level arithmetic.  `funs`: math functions may appear (bodies only - a condition on an
+    uninterpreted value cannot be executed by the model)."""
     k = rng.random()
-    if d <= 0 or k < 0.55:
+    if d <= 0 or k < 0.5:
         j = rng.random()
         if j < 0.6:
             m = rng.choice(["pt", "eta", "phi", "m"])
@@ -25,8 +27,23 @@ def gen_pa(rng: random.Random, var: str, d: int) -> Tuple[str, Any]:
         t = rng.choice(["0.5", "1.5", "30.0", "2.25", "1e-05"])
         fr = Fraction(t)
         return t, ["dbl", t, fr.numerator, fr.denominator]
-    a, sa = gen_pa(rng, var, d - 1)
-    b, sb = gen_pa(rng, var, d - 1)
+    if k < 0.58:
+        a, sa = gen_pa(rng, var, d - 1, funs)
+        return f"(-{a})", ["neg", sa]
+    if k < 0.70:
+        a, sa = gen_pa(rng, var, d - 1, funs)
+        # divisors: mostly constants away from zero, sometimes arbitrary (division by zero is a fault on both sides)
+        if rng.random() < 0.8:
+            b, sb = rng.choice([("2", ["int", 2]), ("30", ["int", 30]), ("0.5", ["dbl", "0.5", 1, 2]), ("1.5", ["dbl", "1.5", 3, 2])])
+        else:
+            b, sb = gen_pa(rng, var, d - 1, funs)
+        return f"({a}/{b})", ["div", sa, sb]
+    if funs and k < 0.78:
+        a, sa = gen_pa(rng, var, d - 1, funs)
+        f = rng.choice(["sqrt", "sin", "cos", "exp", "log", "tanh"])
+        return f"{f}({a})", ["fun", "std::" + f, sa]
+    a, sa = gen_pa(rng, var, d - 1, funs)
+    b, sb = gen_pa(rng, var, d - 1, funs)
     op = rng.choice(["+", "-", "*"])
     return f"({a}{op}{b})", ["bin", op, sa, sb]
 
@@ -57,7 +74,7 @@ def gen_count(rng, uni: qgen.Universe, ev: str, uses: List[Tuple[str, str]], nva
     if rng.random() < 0.45:
         nvar[0] += 1
         v = f"y{nvar[0]}"
-        b, sb = gen_pa(rng, v, rng.choice([0, 1, 2]))
+        b, sb = gen_pa(rng, v, rng.choice([0, 1, 2]))   # no functions here: a Sum of uninterpreted values may reach a comparison
         return src + f".Select(lambda {v}: {b}).Sum()", ["count", [name.lower(), ct, bank, arrow, preds, ["sum", sb]]]
     return src + ".Count()", ["count", [name.lower(), ct, bank, arrow, preds, ["count"]]]
 
@@ -100,7 +117,7 @@ def gen_vec(rng, uni: qgen.Universe, ev: str, uses, nvar):
         preds.append(sp)
     nvar[0] += 1
     v = f"y{nvar[0]}"
-    b, sb = gen_pa(rng, v, rng.choice([0, 1, 2]))
+    b, sb = gen_pa(rng, v, rng.choice([0, 1, 2]), funs=True)
     return src + f".Select(lambda {v}: {b})", ["vec", name.lower(), ct, bank, arrow, preds, sb]
 
 
@@ -140,7 +157,7 @@ def gen_row(rng: random.Random, uni: qgen.Universe, depth: int):
 def gen_prow(rng, var: str):
     """-> (body source, names, [(name, pa sexp)])"""
     n = rng.choice([1, 1, 2, 3])
-    cols = [gen_pa(rng, var, rng.choice([0, 1, 2])) for _ in range(n)]
+    cols = [gen_pa(rng, var, rng.choice([0, 1, 2]), funs=True) for _ in range(n)]
     form = rng.choice(["tuple", "list", "dict"]) if n > 1 else rng.choice(["bare", "dict", "tuple"])
     if form == "bare":
         names, body = ["col1"], cols[0][0]
